@@ -34,6 +34,7 @@ const (
 var (
 	errUnsupportedType  = errors.New("设置字段值时不支持的类型")
 	errNumberRange      = errors.New("数值范围设置错误")
+	errValueOverflow    = errors.New("数值超出字段类型的范围")
 	optionsCache        = make(map[string]optionsCacheValue)
 	cacheLock           sync.RWMutex
 	structRequiredCache = make(map[reflect.Type]requiredCacheValue)
@@ -213,10 +214,19 @@ func setMatchedPrimitiveValue(kind reflect.Kind, value reflect.Value, v any) err
 	case reflect.Bool:
 		value.SetBool(v.(bool))
 	case reflect.Int, reflect.Int8, reflect.Int16, reflect.Int32, reflect.Int64:
+		if value.OverflowInt(v.(int64)) {
+			return errValueOverflow
+		}
 		value.SetInt(v.(int64))
 	case reflect.Uint, reflect.Uint8, reflect.Uint16, reflect.Uint32, reflect.Uint64:
+		if value.OverflowUint(v.(uint64)) {
+			return errValueOverflow
+		}
 		value.SetUint(v.(uint64))
 	case reflect.Float32, reflect.Float64:
+		if value.OverflowFloat(v.(float64)) {
+			return errValueOverflow
+		}
 		value.SetFloat(v.(float64))
 	case reflect.String:
 		value.SetString(v.(string))
